@@ -24,7 +24,7 @@ var (
 	addrRegHosts   = []string{"", "", "example.com/", "registry.terraform.io/", "app.terraform.io/", "terraform.example.com:8443/", "テラフォーム.example.com/", "EXAMPLE.com/", "example.com:443/", "gitlab.com/", "Bücher.example/"}
 	addrRegNames   = []string{"hashicorp", "ns", "a", "A-b_c", "x0", "Name", "a_b", "0a"}
 	addrRegSystems = []string{"aws", "cidr", "azurerm", "x", "a1", "0"}
-	addrVersions   = []string{"1.0.0", "0.0.0", "1.2.3-beta.1", "2.0.0-rc.1+build.5", "10.20.30", "1.0.0+meta", "0.1.0-alpha", "1.0.0-0", "1.0.0-x.7.z.92"}
+	addrVersions   = []string{"1.99999999999999999999.0", "99999999999999999999.0.0", "1.0.18446744073709551616", "1.0.0", "0.0.0", "1.2.3-beta.1", "2.0.0-rc.1+build.5", "10.20.30", "1.0.0+meta", "0.1.0-alpha", "1.0.0-0", "1.0.0-x.7.z.92"}
 	addrLocalSegs  = []string{"a", "b", "mod", "x.tf", "módulo", "a b", "-x", "_", "a@b", "a#b", "a%20b", "..."}
 )
 
